@@ -34,7 +34,13 @@ Definition serve (s : server) (r : req) : server * payload :=
   | GetResult => if sjob s then (s, POk) else (s, PErr JOB_DOES_NOT_EXIST)
   end.
 
-Inductive fault := NoFault | BreakBefore (x : exn) | BreakAfter (x : exn) | Reject (c : code).
+Inductive fault :=
+| NoFault                  (* the request reaches the server and its response reaches the client *)
+| BreakBefore (x : exn)    (* the stream raises x before the server handled the request; the request may still be
+                              handled later (Late), its response is lost in any case *)
+| BreakAfter (x : exn)     (* the server handled the request, then the stream raises x: the response is lost *)
+| Reject (c : code)        (* the server answers with error code c, leaving its state unchanged *)
+| Late (k : nat).          (* the server now handles the k-th request that was overtaken by a stream break *)
 Inductive outcome := Returned | RaisedStream (c : code) | RaisedExn (x : exn) | OutOfFuel.
 
 Definition retryable (x : exn) : bool := is_api x && is_retryable x.
@@ -42,8 +48,16 @@ Definition retryable (x : exn) : bool := is_api x && is_retryable x.
 Definition cons_req (r : req) (x : server * outcome * list req) : server * outcome * list req :=
   match x with (s, o, l) => (s, o, r :: l) end.
 
-(* `while True:` of _manage_execution; one iteration per request sent; the fault list says what happens to it *)
-Fixpoint client (fuel : nat) (s : server) (cur : req) (fs : list fault) : server * outcome * list req :=
+Fixpoint take_nth {A} (n : nat) (l : list A) : option (A * list A) :=
+  match l, n with
+  | [], _ => None
+  | x :: r, O => Some (x, r)
+  | x :: r, S k => match take_nth k r with Some (y, r') => Some (y, x :: r') | None => None end
+  end.
+
+(* `while True:` of _manage_execution; one iteration per fault-list entry: a request is sent and the entry says what
+   happens to it (or, for Late, an overtaken request is handled first); zs = requests overtaken by a stream break *)
+Fixpoint client (fuel : nat) (s : server) (zs : list req) (cur : req) (fs : list fault) : server * outcome * list req :=
   match fuel with
   | O => (s, OutOfFuel, [])
   | S f =>
@@ -55,24 +69,29 @@ Fixpoint client (fuel : nat) (s : server) (cur : req) (fs : list fault) : server
         | (s', POk) => (s', Returned, [cur])
         | (s', PErr c) =>
             match retry c cur with
-            | Some r' => cons_req cur (client f s' r' fs')
+            | Some r' => cons_req cur (client f s' zs r' fs')
             | None => (s', RaisedStream c, [cur])
             end
         end
     | Reject c =>
         match retry c cur with
-        | Some r' => cons_req cur (client f s r' fs')
+        | Some r' => cons_req cur (client f s zs r' fs')
         | None => (s, RaisedStream c, [cur])
         end
     | BreakBefore x =>
-        if retryable x then cons_req cur (client f s GetResult fs') else (s, RaisedExn x, [cur])
+        if retryable x then cons_req cur (client f s (zs ++ [cur]) GetResult fs') else (s, RaisedExn x, [cur])
     | BreakAfter x =>
         let s' := fst (serve s cur) in
-        if retryable x then cons_req cur (client f s' GetResult fs') else (s', RaisedExn x, [cur])
+        if retryable x then cons_req cur (client f s' zs GetResult fs') else (s', RaisedExn x, [cur])
+    | Late k =>
+        match take_nth k zs with
+        | Some (z, zs') => client f (fst (serve s z)) zs' cur fs'
+        | None => client f s zs cur fs'
+        end
     end
   end.
 
-Definition run_client (fuel : nat) (s : server) (fs : list fault) := client fuel s CreateProgJob fs.
+Definition run_client (fuel : nat) (s : server) (fs : list fault) := client fuel s [] CreateProgJob fs.
 
 (* ==================================================================================================================== *)
 (* Part B — the manager                                                                                                  *)
@@ -86,7 +105,8 @@ Inductive estatus := Running | Finished (o : eoutcome).
 (* execution coroutine e submits job e of program eprog *)
 Record exec := mkexec { eprog : nat; ecur : req; ewait : option nat; est : estatus }.
 (* a request as seen by the stream: message id, (ghost) sender, kind, program and job it names *)
-Record wreq := mkwreq { wid : nat; wexec : nat; wkind : req; wprog : nat; wjob : nat }.
+Record wreq := mkwreq { wid : nat; wexec : nat; wkind : req; wprog : nat; wjob : nat; wlive : bool }.
+Definition kill (w : wreq) : wreq := mkwreq (wid w) (wexec w) (wkind w) (wprog w) (wjob w) false.
 
 Record mgr := mkmgr {
   next_id : nat;
@@ -124,7 +144,7 @@ Inductive event :=
 | RejectReq (k : nat) (c : code)(* the server answers the k-th request with error code c, state unchanged *)
 | Respond (k : nat)             (* the k-th outstanding response reaches the client *)
 | RespondCancel (k : nat)       (* ... and its waiter is cancelled before it resumes *)
-| Break (x : exn)               (* the stream raises x: requests on the wire and outstanding responses are lost *)
+| Break (x : exn)               (* the stream raises x: outstanding responses are lost, unhandled requests become mute *)
 | Cancel (i : nat)              (* the future returned by the i-th submit is cancelled *)
 | Stop.                         (* StreamManager.stop() *)
 
@@ -138,12 +158,6 @@ Fixpoint update {A} (n : nat) (f : A -> A) (l : list A) : list A :=
   | [], _ => []
   | x :: r, O => f x :: r
   | x :: r, S k => x :: update k f r
-  end.
-Fixpoint take_nth {A} (n : nat) (l : list A) : option (A * list A) :=
-  match l, n with
-  | [], _ => None
-  | x :: r, O => Some (x, r)
-  | x :: r, S k => match take_nth k r with Some (y, r') => Some (y, x :: r') | None => None end
   end.
 
 Definition is_running (s : estatus) : bool := match s with Running => true | Finished _ => false end.
@@ -164,7 +178,7 @@ Definition send (e : nat) (r : req) (m : mgr) : mgr :=
     set_next_id (S id)
       (set_subs (subs m ++ [(id, e)])
         (set_execs (update e (fun x => mkexec (eprog x) r (Some id) (est x)) (execs m))
-          (set_wire (wire m ++ [mkwreq id e r (eprog x) e])
+          (set_wire (wire m ++ [mkwreq id e r (eprog x) e true])
             (set_lreqs ((clock m, e, id, r) :: lreqs m) m))))
   end.
 
@@ -219,7 +233,9 @@ Definition wake_broken (x : exn) (m : mgr) (s : nat * nat) : mgr :=
 Definition wake_stopped (m : mgr) (s : nat * nat) : mgr :=
   if waiting_on m (snd s) (fst s) then cancel_exec (snd s) m else m.
 
-Definition drop_stream (m : mgr) : mgr := set_subs [] (set_wire [] (set_pending [] m)).
+(* the stream is gone: nobody is subscribed any more, outstanding responses are lost, and the requests the server has
+   not handled yet may still be handled later — but their responses go nowhere *)
+Definition drop_stream (m : mgr) : mgr := set_subs [] (set_wire (map kill (wire m)) (set_pending [] m)).
 
 Definition mstep (m0 : mgr) (ev : event) : mgr :=
   let m := set_clock (S (clock m0)) m0 in
@@ -230,12 +246,13 @@ Definition mstep (m0 : mgr) (ev : event) : mgr :=
   | Process k =>
       match take_nth k (wire m) with
       | None => m
-      | Some (w, rest) => let (m1, p) := serve_m w (set_wire rest m) in reply (wid w) p m1
+      | Some (w, rest) =>
+        let (m1, p) := serve_m w (set_wire rest m) in if wlive w then reply (wid w) p m1 else m1
       end
   | RejectReq k c =>
       match take_nth k (wire m) with
       | None => m
-      | Some (w, rest) => reply (wid w) (MErr c) (set_wire rest m)
+      | Some (w, rest) => if wlive w then reply (wid w) (MErr c) (set_wire rest m) else set_wire rest m
       end
   | Respond k =>
       match take_nth k (pending m) with
